@@ -229,10 +229,59 @@ pub fn debug_equal_up_to_floats(a: &str, b: &str) -> bool {
     })
 }
 
+/// Calibration definitions are keyed by an identifier that holds expressions, and the text of an
+/// expression does not determine its structure (`+x` prints as `x`, `Number(-3)` and `-(3)` both as
+/// `-3`, a two-part complex literal like the sum it looks like). Two definitions whose identifiers
+/// differ only in that way are two entries of a built program but one signature in its text, where
+/// the later one replaces the earlier in place — the same program once expressions are compared by
+/// value, which is what the statement asks for. This folds such pairs on the built side (only when
+/// the identifiers read back from their text as the same identifier *and* are equal by value;
+/// anything else is left to differ).
+pub fn fold_value_equal_calibrations(a: &[Instruction]) -> (Vec<Instruction>, usize) {
+    // the identifier as the parser reads its text back (None if it does not print or parse)
+    fn reread(id: &quil_rs::instruction::CalibrationIdentifier) -> Option<quil_rs::instruction::CalibrationIdentifier> {
+        let def = quil_rs::instruction::CalibrationDefinition { identifier: id.clone(), instructions: vec![Instruction::Nop()] };
+        let text = Instruction::CalibrationDefinition(def).to_quil().ok()?;
+        match Program::from_str(&text).ok()?.to_instructions().as_slice() {
+            [Instruction::CalibrationDefinition(d)] => Some(d.identifier.clone()),
+            _ => None,
+        }
+    }
+    let mut out: Vec<Instruction> = vec![];
+    let mut folded = 0;
+    for i in a {
+        if let Instruction::CalibrationDefinition(c) = i {
+            let same_key = |e: &Instruction| match e {
+                Instruction::CalibrationDefinition(d) => {
+                    d.identifier != c.identifier
+                        && reread(&d.identifier).is_some()
+                        && reread(&d.identifier) == reread(&c.identifier)
+                        && (0..3).all(|k| {
+                            let strip = |x: &quil_rs::instruction::CalibrationDefinition| {
+                                Instruction::CalibrationDefinition(quil_rs::instruction::CalibrationDefinition { identifier: x.identifier.clone(), instructions: vec![] })
+                            };
+                            canon(&strip(d), k) == canon(&strip(c), k)
+                        })
+                }
+                _ => false,
+            };
+            if let Some(pos) = out.iter().position(same_key) {
+                out[pos] = i.clone();
+                folded += 1;
+                continue;
+            }
+        }
+        out.push(i.clone());
+    }
+    (out, folded)
+}
+
 pub fn equivalent(a: &[Instruction], b: &[Instruction]) -> Result<(), String> {
     if a == b {
         return Ok(());
     }
+    let (folded, n) = fold_value_equal_calibrations(a);
+    let a: &[Instruction] = if n > 0 { &folded } else { a };
     if a.len() != b.len() {
         return Err(format!("{} instructions became {}", a.len(), b.len()));
     }
